@@ -46,6 +46,25 @@ MODEL_SCOPE = ('modelled: correct_json_route_list, compute_constrained_path deci
 TRUSTED = ['the harness reads the DiGraph (nodes, edges) and Fiber.params.length from the implementation and numbers '
            'the nodes; fibre lengths are integral metres in every generated network (checked per case)']
 
+MANIFEST = {
+    'text': 'Lean 4 theorems establish, for every finite weighted digraph, source/destination and include list, that the '
+            'route ORACLE (exhaustive DFS enumeration proved sound and complete, minimum-weight selection, the decision '
+            'wrapper of compute_constrained_path) and the route CHECKER mean exactly the property statement: real '
+            'loop-free route crossing the includes in order, minimal fibre length (weight-minimal = length-minimal for '
+            'km-multiple spans), STRICT => blocked, all-LOOSE => dropped, unreachable => NO_PATH, explicit OMS chain = the '
+            'unique route, reversed path = same sites reversed, route-list clean-up, ispart = subsequence. Every path '
+            'and blocking reason the real code returns is run through the checker and compared with the oracle on '
+            'every run; an independent Python brute force is compared with both.',
+    'note': 'networkx (shortest_simple_paths, dijkstra_path) is NOT modelled: the proof is about the oracle/checker, '
+            'the code is tied to it by differential execution on generated meshes (3-14 ROADMs) and an exhaustive sweep '
+            'of all connected topologies on <= 5 ROADMs in the thorough tier. Trusted base: Lean 4.33 kernel (+ '
+            'leanchecker in thorough), Mathlib v4.33, axioms propext/Classical.choice/Quot.sound only. One STRICT hop '
+            'makes the whole include list STRICT (the code\'s documented simplification, adopted by the monitor). '
+            'Include lists never repeat a node (the property is silent on [X, X]).',
+    'technique': 'Lean 4 verified oracle + verified checker for the routing decision, differential correspondence '
+                 'against the real code, independent brute-force monitor',
+}
+
 S, L = 'STRICT', 'LOOSE'
 
 
@@ -488,6 +507,7 @@ def run_route(case, drv):
             res.cmp_exact('checkRoute(impl path)', True, ok, request=rr, decision=dec['kind'])
             if dec['kind'] == 'explicit':
                 res.cmp_exact('explicit_path.path', path, [net.uids[i] for i in dec['path']])
+                res.cmp_exact('explicit_path.unique_route', 1, ans['nvalid'])      # theorem explicit_path_unique
         elif model_reason is None:
             res.cmp_exact('compute_constrained_path.path_present', bool(path), True, request=rr)
         if via != 'planning':
@@ -536,6 +556,34 @@ def run_route(case, drv):
     res.nontrivial = nontrivial
     res.stats.update({f'roadms_{case["mesh"]["n"]}': 1, 'meshes': 1})
     return res
+
+
+# --------------------------------------------------------------------------------------------------------------------
+# exhaustive small scope (thorough tier): every connected topology on 2..5 ROADMs up to isomorphism, all ordered
+# pairs, every single-ROADM include (STRICT and LOOSE) and every single-line include (STRICT)
+# --------------------------------------------------------------------------------------------------------------------
+
+def exhaustive():
+    for n, edges in meshes.small_topologies(5):
+        mesh = meshes.small_mesh(n, edges)
+        dirs = [(a, b) for a, b in edges] + [(b, a) for a, b in edges]
+        reqs = []
+        for s in range(n):
+            for t in range(n):
+                if s == t:
+                    continue
+                incs = [[]]
+                for m in range(n):
+                    if m not in (s, t):
+                        incs.append([[['R', m], S]])
+                        incs.append([[['R', m], L]])
+                if n <= 4:
+                    for (a, b) in dirs:
+                        incs.append([[['L', a, b, 0.5], S]])
+                for inc in incs:
+                    reqs.append({'id': len(reqs), 'src': ['T', s], 'dst': ['T', t], 'inc': inc, 'bidir': s < t,
+                                 'style': 'exhaustive'})
+        yield {'kind': 'route', 'mesh': mesh, 'reqs': reqs, 'via': 'dsjctn'}
 
 
 # --------------------------------------------------------------------------------------------------------------------
